@@ -147,6 +147,41 @@ def check_tables(prog: Program, rep, rule: str) -> None:
                  'shipped table\'s objects')
     else:
         rep.ok(rule, mk.where, 'make_data_points returns a fresh list of fresh points')
+    # field mapping, by evaluation on a table that mixes the accepted entry kinds: a point object, a dict, and a dict
+    # written with its keys the other way round - each must come back as a point with its own Mach and its own CD
+    from ..abseval import DictVal
+    evm = Evaluator(prog)
+    evm.unroll = True
+    stm = State()
+    ddp = prog.cls(C.M_DM, 'DragDataPoint')
+    entries = [evm.new_inst(stm, ddp, {'Mach': S('m1'), 'CD': S('c1')}),
+               DictVal({('c', 'Mach'): S('m2'), ('c', 'CD'): S('c2')}),
+               DictVal({('c', 'CD'): S('c3'), ('c', 'Mach'): S('m3')})]
+    try:
+        tree_m, stm = evm.run_func(mk, {mk.positional[0]: evm.new_list(stm, entries)}, stm)
+    except Undecided as exc:
+        raise AnalysisError(f'make_data_points: {exc}') from exc
+    bad_map, n_map = None, 0
+    for _p, lf in leaves(tree_m):
+        if _p:
+            raise AnalysisError('make_data_points: the outcome on a concrete table of three entries is not decided')
+        its = evm.items(lf.state, lf.value) if lf.kind == 'return' and lf.value is not None else None
+        if its is None or len(its) != 3 or not all(isinstance(i_, Inst) and i_.cls is ddp for i_ in its):
+            bad_map = f'a table of a point and two dicts comes back as {lf.value!r} ({lf.kind})'
+            continue
+        for k_, i_ in enumerate(its, 1):
+            h_ = lf.state.heap[i_.oid]
+            if not (isinstance(h_.get('Mach'), Scalar) and h_['Mach'].rf.equals(A.sym(f'm{k_}'))
+                    and isinstance(h_.get('CD'), Scalar) and h_['CD'].rf.equals(A.sym(f'c{k_}'))):
+                kind_ = ['a DragDataPoint', "a dict {'Mach': m, 'CD': c}", "a dict {'CD': c, 'Mach': m}"][k_ - 1]
+                bad_map = (f'{kind_} comes back with Mach = {h_.get("Mach")!r}, CD = {h_.get("CD")!r} (given Mach m{k_}, CD c{k_}): '
+                           f'the fields are taken by position, not by name')
+            else:
+                n_map += 1
+    if bad_map:
+        rep.fail(rule, mk.module.path, mk.node.lineno, mk.qualname, 'field-mapping', 'make_data_points: ' + bad_map)
+    else:
+        rep.ok(rule, mk.where, f'make_data_points keeps Mach and CD of every entry kind by name ({n_map} entries)')
 
 
 def _poly_at(entry: Dict[str, object], x: A.RF) -> Optional[A.RF]:
